@@ -280,7 +280,12 @@ fn check_effect(region: &str, reqs: &[(u8, Vec<u8>)], before: &crate::oracle::Sn
     }
     let same_cfg = before.dr == after.dr && before.txp == after.txp && before.off == after.off && before.rx2dr == after.rx2dr && before.rx2f == after.rx2f && before.rx1d == after.rx1d;
     let nmask = if fixed { 9 } else { 2 };
-    let same_mask = before.mask[..nmask] == after.mask[..nmask];
+    // the two snapshots also span the uplink before the downlink: on a fixed plan an uplink at a data
+    // rate none of whose channels is enabled re-enables that bandwidth group (select_tx_channel, as
+    // coded; the transmission itself is judged by C09), so a group that was empty and is complete
+    // afterwards is not a change made by the command
+    let group_same = |r: std::ops::Range<usize>| before.mask[r.clone()] == after.mask[r.clone()] || (fixed && before.mask[r.clone()].iter().all(|b| *b == 0) && after.mask[r].iter().all(|b| *b == 0xff));
+    let same_mask = if fixed { group_same(0..8) && group_same(8..9) } else { before.mask[..nmask] == after.mask[..nmask] };
     let same_chans = before.chans == after.chans;
     match reqs[0].0 {
         0x03 => {
